@@ -102,3 +102,96 @@ func remRatio(n, d *big.Rat, floor bool) slip.Object {
 	_ = q.Mul(q.SetInt(&qi), d)
 	return reduceRational(q.Sub(n, &q))
 }
+
+// exactCompare compares two reals by their exact values when one is a rational
+// and the other a float or when one is a ratio and the other a bignum. A float
+// is an exact binary rational so no rounding of the rational to the float
+// format, as slip.NormalizeNumber does, is needed. The ok return is false for
+// any other pair, for a NaN, and for a non-real. Those are left to the caller.
+func exactCompare(x, y slip.Object) (cmp int, ok bool) {
+	xf, yf := floatValue(x), floatValue(y)
+	switch {
+	case xf != nil && yf == nil:
+		if yr := rationalValue(y); yr != nil {
+			return -compareRatFloat(yr, xf), true
+		}
+	case xf == nil && yf != nil:
+		if xr := rationalValue(x); xr != nil {
+			return compareRatFloat(xr, yf), true
+		}
+	case xf == nil && yf == nil:
+		switch tx := x.(type) {
+		case *slip.Ratio:
+			if by, isBig := y.(*slip.Bignum); isBig {
+				return (*big.Rat)(tx).Cmp(new(big.Rat).SetInt((*big.Int)(by))), true
+			}
+		case *slip.Bignum:
+			if ry, isRatio := y.(*slip.Ratio); isRatio {
+				return new(big.Rat).SetInt((*big.Int)(tx)).Cmp((*big.Rat)(ry)), true
+			}
+		}
+	}
+	return 0, false
+}
+
+// floatValue returns the value of a single-float, double-float, or long-float
+// and nil for any other object or a NaN. The value must not be modified.
+func floatValue(obj slip.Object) (f *big.Float) {
+	switch to := obj.(type) {
+	case slip.SingleFloat:
+		if !math.IsNaN(float64(to)) {
+			f = big.NewFloat(float64(to))
+		}
+	case slip.DoubleFloat:
+		if !math.IsNaN(float64(to)) {
+			f = big.NewFloat(float64(to))
+		}
+	case *slip.LongFloat:
+		f = (*big.Float)(to)
+	}
+	return
+}
+
+// rationalValue returns the value of a fixnum, bignum, or ratio and nil for
+// any other object. The value must not be modified.
+func rationalValue(obj slip.Object) (rat *big.Rat) {
+	switch to := obj.(type) {
+	case slip.Fixnum:
+		rat = new(big.Rat).SetInt64(int64(to))
+	case *slip.Bignum:
+		rat = new(big.Rat).SetInt((*big.Int)(to))
+	case *slip.Ratio:
+		rat = (*big.Rat)(to)
+	}
+	return
+}
+
+// compareRatFloat compares a rational with a finite or infinite float.
+func compareRatFloat(rat *big.Rat, f *big.Float) int {
+	rs := rat.Sign()
+	fs := f.Sign()
+	switch {
+	case f.IsInf():
+		return -fs
+	case rs < fs:
+		return -1
+	case fs < rs:
+		return 1
+	case rs == 0:
+		return 0
+	}
+	// Same sign and neither is zero. With 2^(fx-1) <= |f| < 2^fx and
+	// 2^(rx-2) < |rat| < 2^rx the magnitudes usually differ enough to avoid
+	// the conversion of a float with a large exponent to a big.Rat.
+	fx := f.MantExp(nil)
+	rx := rat.Num().BitLen() - rat.Denom().BitLen() + 1
+	switch {
+	case rx < fx:
+		return -rs
+	case fx < rx-1:
+		return rs
+	}
+	fr, _ := f.Rat(nil)
+
+	return rat.Cmp(fr)
+}
